@@ -4,13 +4,15 @@ set -u
 cd "$(dirname "$0")"
 export CARGO_NET_OFFLINE=true GOPROXY=off PIP_NO_INDEX=1
 mkdir -p .cache evidence replays
+# 0. translators: regenerate coq/Gen/*.v from /repo's current sources
+python3 translators/run_all.py /repo 2>&1 | tail -6
 # 1. Coq development (full .vo build)
 python3 - <<'PY'
 import sys; sys.path.insert(0, '.')
 from checks import common
 common.coq_makefile()
 PY
-( cd coq && timeout 3000 make -j16 2>&1 | tail -5 )
+( cd coq && timeout 5000 make -k -j16 2>&1 | tail -5 )
 # 2. Rust harness workspace against /repo's working tree, hooks on
-( cd harness && RUSTFLAGS="--cfg concordium_base_verif" CARGO_TARGET_DIR=/verif/.cache/target timeout 3000 cargo build --release --offline --workspace 2>&1 | tail -3 )
+( cd harness && RUSTFLAGS="--cfg concordium_base_verif" CARGO_TARGET_DIR=/verif/.cache/target timeout 5000 cargo build --release --offline --workspace 2>&1 | tail -3 )
 exit 0
